@@ -284,6 +284,20 @@ macro_rules! cache_return {
         let cache_key = $cache_key;
         let value = $value;
 
+        #[cfg(feature = "verif")]
+        crate::verif_hooks::memo_store(
+            &format!("{:?}", cache_key.0),
+            cache_key.1,
+            !matches!(value.0.variant, Variant::ParseError),
+            value.1,
+            value.2,
+            || {
+                let mut error_factories = vec![];
+                collect_error_factories(&mut error_factories, &value.0);
+                error_factories.len()
+            },
+        );
+
         // Cache and return the value.
         $cache.insert(cache_key, value.clone());
         return value;
